@@ -306,9 +306,12 @@ def tok_rules(repo, tier="quick"):
                                 reason="cannot find the `token + iter.peek() in <two-letter elements>` test"))
     else:
         cont = look.comparators[0]
+        from ..model import fold_const
         try:
-            lit = ast.literal_eval(cont)
-        except Exception:
+            lit = fold_const(cont, None if isinstance(cont, ast.Name) and cont.id in fl.locals else fi.module)
+        except (ValueError, TypeError):
+            lit = None
+        if lit is not None and (isinstance(lit, (str, dict)) or not hasattr(lit, "__iter__")):
             lit = None
         if lit is not None and all(isinstance(x, str) for x in lit):
             amb = sorted(x for x in lit if len(x) == 2 and x[0] in ORGANIC_UPPER and x[1] in AROMATIC_LOWER)
@@ -413,22 +416,34 @@ def tok_rules(repo, tier="quick"):
 
 def _descriptor_split(T, bracket_branch):
     """Inside the '[' branch: the if whose test looks for a descriptor kind character; returns
-    (descriptor arm stmts, atom arm stmts, If node)."""
+    (descriptor arm stmts, atom arm stmts, If node).  A guard clause (`if <kind test>: ...; continue` followed by the other
+    case) is the same split."""
+    from ..model import fold_const
     test, body, node = bracket_branch
     kinds = set(SPEC["descriptor_kinds"])
-    for st in body:
+    for pos, st in enumerate(body):
         if isinstance(st, ast.If):
             cmp_, tarm, farm = if_arms(st)
             if isinstance(cmp_, ast.Compare) and len(cmp_.ops) == 1 and isinstance(cmp_.ops[0], (ast.In, ast.NotIn)):
+                cont = cmp_.comparators[0]
+                if isinstance(cont, ast.Name) and cont.id in T.fl.locals:
+                    cont = resolve_ast(T.fl, cont, T.cfg.owner[id(cont)])[0] if id(cont) in T.cfg.owner else cont
                 try:
-                    lit = ast.literal_eval(cmp_.comparators[0])
-                except Exception:
+                    lit = fold_const(cont, T.fi.module)
+                except (ValueError, TypeError):
+                    continue
+                if not isinstance(lit, (str, list, tuple, set, frozenset)) or not all(isinstance(x, str) for x in lit):
                     continue
                 if len(set(lit) & kinds) >= 2:
                     T.kinds_literal = set(lit) if not isinstance(lit, str) else set(lit.replace(" ", ""))
                     T.peek_var = ast.unparse(cmp_.left)
                     if isinstance(cmp_.ops[0], ast.NotIn):
                         tarm, farm = farm, tarm
+                    rest = body[pos + 1:]
+                    if rest and not farm and tarm and isinstance(tarm[-1], ast.Continue):
+                        farm = rest
+                    elif rest and not tarm and farm and isinstance(farm[-1], ast.Continue):
+                        tarm = rest
                     return tarm, farm, st
     raise AnalysisError("cannot find the descriptor / bracket-atom split in the '[' branch", T.fi.where(node))
 
